@@ -395,6 +395,63 @@ func c10Check(r *obs.Run, a c10alpha, s []byte, k int, exhaustive bool) {
 			}
 		}
 	}
+	// the same letters held by a sequence that does not start at 0: occurrence counts are what they were, and the
+	// positions are the same ones either as indices into the letters or shifted by the sequence's offset throughout
+	if !exhaustive && r.Rng.Intn(4) == 0 {
+		off := 1 + r.Rng.Intn(40)
+		if r.Rng.Intn(2) == 0 {
+			off = -off
+		}
+		osq := linear.NewSeq("s", alphabet.BytesToLetters(append([]byte(nil), s...)), a.a)
+		osq.Offset = off
+		oki, err := kmerindex.New(k, osq)
+		if err != nil {
+			fail("new-error", fmt.Sprintf("New on the sequence at offset %d returned %v", off, err), nil, nil)
+		} else {
+			if f, ok := oki.KmerFrequencies(); !ok || len(f) != len(refPos) {
+				fail("frequencies", fmt.Sprintf("sequence at offset %d: %d words with non-zero frequency", off, len(f)), len(f), len(refPos))
+			} else {
+				for wd, ps := range refPos {
+					if f[kmerindex.Kmer(wd)] != len(ps) {
+						fail("frequencies", fmt.Sprintf("sequence at offset %d: frequency of %s", off, c10Text(a, wd, k)), f[kmerindex.Kmer(wd)], len(ps))
+						break
+					}
+				}
+			}
+			oki.Build()
+			shift := -1 // unknown yet: 0 (indices into the letters) or off (sequence coordinates)
+			for wd, want := range refPos {
+				got, err := oki.KmerPositions(kmerindex.Kmer(wd))
+				g := append([]int(nil), got...)
+				sort.Ints(g)
+				okAt := func(sh int) bool {
+					if err != nil || len(g) != len(want) {
+						return false
+					}
+					for j := range g {
+						if g[j]-sh != want[j] {
+							return false
+						}
+					}
+					return true
+				}
+				switch {
+				case shift == -1 && okAt(0):
+					shift = 0
+				case shift == -1 && okAt(off):
+					shift = off
+				case shift != -1 && okAt(shift):
+				default:
+					fail("positions", fmt.Sprintf("sequence at offset %d: KmerPositions(%s)", off, c10Text(a, wd, k)), got, want)
+					shift = -2
+				}
+				if shift == -2 {
+					break
+				}
+			}
+			r.Count("indexed_sequences_with_an_offset", 1)
+		}
+	}
 	// encoding helpers
 	lookUp := a.a.LetterIndex()
 	for j := 0; j < 6; j++ {
